@@ -6,7 +6,6 @@ import (
 	"errors"
 	"fmt"
 	"io/fs"
-	"os"
 	"path/filepath"
 	"strings"
 )
@@ -50,16 +49,14 @@ func (dv *defaultVerifierSimple) verifyRoot(root *Node) ([]string, []string, err
 
 	dirsFilesystem := map[string]struct{}{}
 	extraDirs := []string{}
-	if err := fs.WalkDir(
-		os.DirFS(filepath.Join(dv.targetDir, root.path())),
-		".",
-		func(path string, d fs.DirEntry, err error) error {
-			dir := filepath.Join(dv.targetDir, root.path(), path)
-
+	rootPath := filepath.Join(dv.targetDir, root.path())
+	if err := filepath.WalkDir(
+		rootPath,
+		func(dir string, d fs.DirEntry, err error) error {
 			if err != nil {
-				if errors.Is(err, fs.ErrNotExist) {
-					// markdown上のrootが検査対象パスに無いとエラー
-					return verifyError{noExists: []string{dir}}
+				if errors.Is(err, fs.ErrNotExist) && dir == rootPath {
+					// markdown上のrootが検査対象パスに無い: rootとその配下すべてが「無い」として報告される
+					return fs.SkipAll
 				}
 				return err
 			}
